@@ -1,0 +1,647 @@
+//go:build verif
+
+// Contracts for package bits, checked by /verif/govc (comment-only file, compiled only with -tags verif).
+package bits
+
+//@ spec be16(a []byte, p int) uint16 = uint16(a[p])<<8 | uint16(a[p+1])
+//@ spec be24(a []byte, p int) uint32 = uint32(a[p])<<16 | uint32(a[p+1])<<8 | uint32(a[p+2])
+//@ spec be32(a []byte, p int) uint32 = uint32(a[p])<<24 | uint32(a[p+1])<<16 | uint32(a[p+2])<<8 | uint32(a[p+3])
+//@ spec be64(a []byte, p int) uint64 = uint64(be32(a, p))<<32 | uint64(be32(a, p+4))
+//@ spec mask(n int) uint = (uint(1) << uint(n)) - 1
+
+//@ axiom ErrSliceRead != nil
+//@ axiom ErrSliceWrite != nil
+
+//@ func Mask
+//@   ensures result == mask(n)
+//@   assigns nothing
+
+// ---------------------------------------------------------------- FixedSliceReader
+
+//@ pred srInv(s *FixedSliceReader) = s != nil && 0 <= s.pos && s.pos <= s.len && s.len == len(s.slice)
+//@ pred srSame(s *FixedSliceReader, slice0 []byte, len0 int) = s.slice == slice0 && s.len == len0
+
+//@ func NewFixedSliceReader
+//@   ensures srInv(result) && result.slice == data && result.pos == 0 && result.err == nil && fresh(result)
+//@   assigns nothing
+
+//@ func (*FixedSliceReader).AccError
+//@   requires s != nil
+//@   ensures result == s.err
+//@   assigns nothing
+
+//@ func (*FixedSliceReader).ReadUint8
+//@   requires srInv(s)
+//@   ensures srInv(s) && srSame(s, old(s.slice), old(s.len))
+//@   ensures old(s.err) == nil && old(s.pos)+1 <= s.len ==> s.err == nil && s.pos == old(s.pos)+1 && result == s.slice[old(s.pos)]
+//@   ensures !(old(s.err) == nil && old(s.pos)+1 <= s.len) ==> s.err != nil && s.pos == old(s.pos) && result == 0
+//@   assigns s.pos, s.err
+
+//@ func (*FixedSliceReader).ReadUint16
+//@   requires srInv(s)
+//@   ensures srInv(s) && srSame(s, old(s.slice), old(s.len))
+//@   ensures old(s.err) == nil && old(s.pos)+2 <= s.len ==> s.err == nil && s.pos == old(s.pos)+2 && result == be16(s.slice, old(s.pos))
+//@   ensures !(old(s.err) == nil && old(s.pos)+2 <= s.len) ==> s.err != nil && s.pos == old(s.pos) && result == 0
+//@   assigns s.pos, s.err
+
+//@ func (*FixedSliceReader).ReadInt16
+//@   requires srInv(s)
+//@   ensures srInv(s) && srSame(s, old(s.slice), old(s.len))
+//@   ensures old(s.err) == nil && old(s.pos)+2 <= s.len ==> s.err == nil && s.pos == old(s.pos)+2 && uint16(result) == be16(s.slice, old(s.pos))
+//@   ensures !(old(s.err) == nil && old(s.pos)+2 <= s.len) ==> s.err != nil && s.pos == old(s.pos) && result == 0
+//@   assigns s.pos, s.err
+
+//@ func (*FixedSliceReader).ReadUint24
+//@   requires srInv(s)
+//@   ensures srInv(s) && srSame(s, old(s.slice), old(s.len))
+//@   ensures old(s.err) == nil && old(s.pos)+3 <= s.len ==> s.err == nil && s.pos == old(s.pos)+3 && result == be24(s.slice, old(s.pos))
+//@   ensures !(old(s.err) == nil && old(s.pos)+3 <= s.len) ==> s.err != nil && s.pos == old(s.pos) && result == 0
+//@   assigns s.pos, s.err
+
+//@ func (*FixedSliceReader).ReadUint32
+//@   requires srInv(s)
+//@   ensures srInv(s) && srSame(s, old(s.slice), old(s.len))
+//@   ensures old(s.err) == nil && old(s.pos)+4 <= s.len ==> s.err == nil && s.pos == old(s.pos)+4 && result == be32(s.slice, old(s.pos))
+//@   ensures !(old(s.err) == nil && old(s.pos)+4 <= s.len) ==> s.err != nil && s.pos == old(s.pos) && result == 0
+//@   assigns s.pos, s.err
+
+//@ func (*FixedSliceReader).ReadInt32
+//@   requires srInv(s)
+//@   ensures srInv(s) && srSame(s, old(s.slice), old(s.len))
+//@   ensures old(s.err) == nil && old(s.pos)+4 <= s.len ==> s.err == nil && s.pos == old(s.pos)+4 && uint32(result) == be32(s.slice, old(s.pos))
+//@   ensures !(old(s.err) == nil && old(s.pos)+4 <= s.len) ==> s.err != nil && s.pos == old(s.pos) && result == 0
+//@   assigns s.pos, s.err
+
+//@ func (*FixedSliceReader).ReadUint64
+//@   requires srInv(s)
+//@   ensures srInv(s) && srSame(s, old(s.slice), old(s.len))
+//@   ensures old(s.err) == nil && old(s.pos)+8 <= s.len ==> s.err == nil && s.pos == old(s.pos)+8 && result == be64(s.slice, old(s.pos))
+//@   ensures !(old(s.err) == nil && old(s.pos)+8 <= s.len) ==> s.err != nil && s.pos == old(s.pos) && result == 0
+//@   assigns s.pos, s.err
+
+//@ func (*FixedSliceReader).ReadInt64
+//@   requires srInv(s)
+//@   ensures srInv(s) && srSame(s, old(s.slice), old(s.len))
+//@   ensures old(s.err) == nil && old(s.pos)+8 <= s.len ==> s.err == nil && s.pos == old(s.pos)+8 && uint64(result) == be64(s.slice, old(s.pos))
+//@   ensures !(old(s.err) == nil && old(s.pos)+8 <= s.len) ==> s.err != nil && s.pos == old(s.pos) && result == 0
+//@   assigns s.pos, s.err
+
+//@ func (*FixedSliceReader).ReadFixedLengthString
+//@   requires srInv(s) && n >= 0
+//@   ensures srInv(s) && srSame(s, old(s.slice), old(s.len))
+//@   ensures old(s.err) == nil && n <= s.len-old(s.pos) ==> s.err == nil && s.pos == old(s.pos)+n && len(result) == n
+//@   ensures old(s.err) == nil && n <= s.len-old(s.pos) ==> forall j int :: 0 <= j && j < n ==> result[j] == s.slice[old(s.pos)+j]
+//@   ensures !(old(s.err) == nil && n <= s.len-old(s.pos)) ==> s.err != nil && s.pos == old(s.pos) && len(result) == 0
+
+//@ func (*FixedSliceReader).ReadZeroTerminatedString
+//@   requires srInv(s) && maxLen >= 0 && maxLen <= 1<<48
+//@   ensures srInv(s) && srSame(s, old(s.slice), old(s.len))
+//@   ensures s.pos >= old(s.pos) && (old(s.err) != nil ==> s.err != nil)
+//@   ensures len(result) <= s.pos - old(s.pos)
+//@   loop 1 invariant srInv(s) && srSame(s, old(s.slice), old(s.len)) && old(s.pos) <= s.pos && s.pos <= maxPos && maxPos <= s.len && startPos == old(s.pos) && s.err == nil
+//@   loop 1 decreases maxPos - s.pos
+
+//@ func (*FixedSliceReader).ReadPossiblyZeroTerminatedString
+//@   requires srInv(s) && maxLen >= 0 && maxLen <= s.len-s.pos
+//@   ensures srInv(s) && srSame(s, old(s.slice), old(s.len))
+//@   ensures s.pos >= old(s.pos) && s.pos <= old(s.pos)+maxLen && s.err == old(s.err)
+//@   ensures len(str) <= s.pos - old(s.pos)
+//@   loop 1 invariant srInv(s) && srSame(s, old(s.slice), old(s.len)) && old(s.pos) <= s.pos && s.pos <= maxPos && maxPos == old(s.pos)+maxLen && startPos == old(s.pos) && s.err == old(s.err)
+//@   loop 1 decreases maxPos - s.pos
+
+//@ func (*FixedSliceReader).ReadBytes
+//@   requires srInv(s)
+//@   ensures srInv(s) && srSame(s, old(s.slice), old(s.len))
+//@   ensures n >= 0 && old(s.err) == nil && n <= s.len-old(s.pos) ==> s.err == nil && s.pos == old(s.pos)+n && len(result) == n && result == s.slice[old(s.pos):old(s.pos)+n]
+//@   ensures !(n >= 0 && old(s.err) == nil && n <= s.len-old(s.pos)) ==> s.err != nil && s.pos == old(s.pos) && len(result) == 0
+//@   assigns s.pos, s.err
+
+//@ func (*FixedSliceReader).RemainingBytes
+//@   requires srInv(s)
+//@   ensures srInv(s) && srSame(s, old(s.slice), old(s.len)) && s.err == old(s.err)
+//@   ensures old(s.err) == nil ==> s.pos == s.len && result == s.slice[old(s.pos):s.len]
+//@   ensures old(s.err) != nil ==> s.pos == old(s.pos) && len(result) == 0
+//@   assigns s.pos
+
+//@ func (*FixedSliceReader).NrRemainingBytes
+//@   requires srInv(s)
+//@   ensures s.err == nil ==> result == s.len - s.pos
+//@   ensures s.err != nil ==> result == 0
+//@   assigns nothing
+
+//@ func (*FixedSliceReader).SkipBytes
+//@   requires srInv(s) && n >= 0 && n <= 1<<62
+//@   ensures srInv(s) && srSame(s, old(s.slice), old(s.len))
+//@   ensures old(s.err) == nil && n <= s.len-old(s.pos) ==> s.err == nil && s.pos == old(s.pos)+n
+//@   ensures !(old(s.err) == nil && n <= s.len-old(s.pos)) ==> s.err != nil && s.pos == old(s.pos)
+
+//@ func (*FixedSliceReader).SetPos
+//@   requires srInv(s) && pos >= 0
+//@   ensures srInv(s) && srSame(s, old(s.slice), old(s.len))
+//@   ensures pos <= s.len ==> s.pos == pos && s.err == old(s.err)
+//@   ensures pos > s.len ==> s.pos == old(s.pos) && s.err != nil
+
+//@ func (*FixedSliceReader).GetPos
+//@   requires s != nil
+//@   ensures result == s.pos
+//@   assigns nothing
+
+//@ func (*FixedSliceReader).Length
+//@   requires s != nil
+//@   ensures result == s.len
+//@   assigns nothing
+
+//@ func (*FixedSliceReader).LookAhead
+//@   requires srInv(s) && offset >= 0 && offset <= 1<<48
+//@   ensures srInv(s) && srSame(s, old(s.slice), old(s.len)) && s.pos == old(s.pos) && s.err == old(s.err)
+//@   ensures (result == nil) == (s.pos+offset+len(data) <= s.len)
+
+// ---------------------------------------------------------------- FixedSliceWriter
+
+//@ pred swInv(sw *FixedSliceWriter) = sw != nil && 0 <= sw.off && sw.off <= len(sw.buf)
+//@ pred swStep(ok bool, errNew error, errOld error, offNew int, offOld int, n int) = (ok ==> offNew == offOld+n && errNew == errOld) && (!ok ==> offNew == offOld && errNew != nil)
+
+//@ func NewFixedSliceWriter
+//@   requires size >= 0 && size <= 1<<48
+//@   ensures swInv(result) && fresh(result) && fresh(result.buf) && len(result.buf) == size && result.off == 0 && result.accError == nil && result.n == 0 && result.v == 0
+//@   assigns nothing
+
+//@ func NewFixedSliceWriterFromSlice
+//@   ensures swInv(result) && fresh(result) && result.buf == data && result.off == 0 && result.accError == nil && result.n == 0 && result.v == 0
+//@   assigns nothing
+
+//@ func (*FixedSliceWriter).Len
+//@   requires sw != nil
+//@   ensures result == sw.off
+//@   assigns nothing
+
+//@ func (*FixedSliceWriter).Offset
+//@   requires sw != nil
+//@   ensures result == sw.off
+//@   assigns nothing
+
+//@ func (*FixedSliceWriter).Capacity
+//@   requires sw != nil
+//@   ensures result == len(sw.buf)
+//@   assigns nothing
+
+//@ func (*FixedSliceWriter).AccError
+//@   requires sw != nil
+//@   ensures result == sw.accError
+//@   assigns nothing
+
+//@ func (*FixedSliceWriter).Bytes
+//@   requires swInv(sw)
+//@   ensures result == sw.buf[0:sw.off]
+//@   assigns nothing
+
+//@ func (*FixedSliceWriter).WriteUint8
+//@   requires swInv(sw)
+//@   ensures swInv(sw) && sw.buf == old(sw.buf)
+//@   ensures swStep(old(sw.off)+1 <= len(sw.buf), sw.accError, old(sw.accError), sw.off, old(sw.off), 1)
+//@   ensures old(sw.off)+1 <= len(sw.buf) ==> sw.buf[old(sw.off)] == n
+//@   assigns sw.off, sw.accError, sw.buf[sw.off:sw.off+1]
+
+//@ func (*FixedSliceWriter).WriteUint16
+//@   requires swInv(sw)
+//@   ensures swInv(sw) && sw.buf == old(sw.buf)
+//@   ensures swStep(old(sw.off)+2 <= len(sw.buf), sw.accError, old(sw.accError), sw.off, old(sw.off), 2)
+//@   ensures old(sw.off)+2 <= len(sw.buf) ==> be16(sw.buf, old(sw.off)) == n
+//@   assigns sw.off, sw.accError, sw.buf[sw.off:sw.off+2]
+
+//@ func (*FixedSliceWriter).WriteInt16
+//@   requires swInv(sw)
+//@   ensures swInv(sw) && sw.buf == old(sw.buf)
+//@   ensures swStep(old(sw.off)+2 <= len(sw.buf), sw.accError, old(sw.accError), sw.off, old(sw.off), 2)
+//@   ensures old(sw.off)+2 <= len(sw.buf) ==> be16(sw.buf, old(sw.off)) == uint16(n)
+//@   assigns sw.off, sw.accError, sw.buf[sw.off:sw.off+2]
+
+//@ func (*FixedSliceWriter).WriteUint24
+//@   requires swInv(sw)
+//@   ensures swInv(sw) && sw.buf == old(sw.buf)
+//@   ensures swStep(old(sw.off)+3 <= len(sw.buf), sw.accError, old(sw.accError), sw.off, old(sw.off), 3)
+//@   ensures old(sw.off)+3 <= len(sw.buf) ==> be24(sw.buf, old(sw.off)) == n & 0xffffff
+//@   assigns sw.off, sw.accError, sw.buf[sw.off:sw.off+3]
+
+//@ func (*FixedSliceWriter).WriteUint32
+//@   requires swInv(sw)
+//@   ensures swInv(sw) && sw.buf == old(sw.buf)
+//@   ensures swStep(old(sw.off)+4 <= len(sw.buf), sw.accError, old(sw.accError), sw.off, old(sw.off), 4)
+//@   ensures old(sw.off)+4 <= len(sw.buf) ==> be32(sw.buf, old(sw.off)) == n
+//@   assigns sw.off, sw.accError, sw.buf[sw.off:sw.off+4]
+
+//@ func (*FixedSliceWriter).WriteInt32
+//@   requires swInv(sw)
+//@   ensures swInv(sw) && sw.buf == old(sw.buf)
+//@   ensures swStep(old(sw.off)+4 <= len(sw.buf), sw.accError, old(sw.accError), sw.off, old(sw.off), 4)
+//@   ensures old(sw.off)+4 <= len(sw.buf) ==> be32(sw.buf, old(sw.off)) == uint32(n)
+//@   assigns sw.off, sw.accError, sw.buf[sw.off:sw.off+4]
+
+//@ func (*FixedSliceWriter).WriteUint64
+//@   requires swInv(sw)
+//@   ensures swInv(sw) && sw.buf == old(sw.buf)
+//@   ensures swStep(old(sw.off)+8 <= len(sw.buf), sw.accError, old(sw.accError), sw.off, old(sw.off), 8)
+//@   ensures old(sw.off)+8 <= len(sw.buf) ==> be64(sw.buf, old(sw.off)) == n
+//@   assigns sw.off, sw.accError, sw.buf[sw.off:sw.off+8]
+
+//@ func (*FixedSliceWriter).WriteInt64
+//@   requires swInv(sw)
+//@   ensures swInv(sw) && sw.buf == old(sw.buf)
+//@   ensures swStep(old(sw.off)+8 <= len(sw.buf), sw.accError, old(sw.accError), sw.off, old(sw.off), 8)
+//@   ensures old(sw.off)+8 <= len(sw.buf) ==> be64(sw.buf, old(sw.off)) == uint64(n)
+//@   assigns sw.off, sw.accError, sw.buf[sw.off:sw.off+8]
+
+//@ func (*FixedSliceWriter).WriteUint48
+//@   requires swInv(sw)
+//@   ensures swInv(sw) && sw.buf == old(sw.buf)
+//@   ensures swStep(old(sw.off)+6 <= len(sw.buf), sw.accError, old(sw.accError), sw.off, old(sw.off), 6)
+//@   ensures old(sw.off)+6 <= len(sw.buf) ==> be16(sw.buf, old(sw.off)) == uint16(u>>32) && be32(sw.buf, old(sw.off)+2) == uint32(u)
+//@   assigns sw.off, sw.accError, sw.buf[sw.off:sw.off+6]
+
+//@ func (*FixedSliceWriter).WriteString
+//@   requires swInv(sw)
+//@   ensures swInv(sw) && sw.buf == old(sw.buf)
+//@   ensures swStep(old(sw.off)+len(s)+ite(addZeroEnd, 1, 0) <= len(sw.buf), sw.accError, old(sw.accError), sw.off, old(sw.off), len(s)+ite(addZeroEnd, 1, 0))
+//@   ensures old(sw.off)+len(s)+ite(addZeroEnd, 1, 0) <= len(sw.buf) ==> forall j int :: 0 <= j && j < len(s) ==> sw.buf[old(sw.off)+j] == old(s[j])
+//@   ensures old(sw.off)+len(s)+ite(addZeroEnd, 1, 0) <= len(sw.buf) && addZeroEnd ==> sw.buf[old(sw.off)+len(s)] == 0
+//@   assigns sw.off, sw.accError, sw.buf[sw.off:sw.off+len(s)+1]
+
+//@ func (*FixedSliceWriter).WriteBytes
+//@   requires swInv(sw)
+//@   ensures swInv(sw) && sw.buf == old(sw.buf)
+//@   ensures swStep(old(sw.off)+len(byteSlice) <= len(sw.buf), sw.accError, old(sw.accError), sw.off, old(sw.off), len(byteSlice))
+//@   ensures old(sw.off)+len(byteSlice) <= len(sw.buf) ==> forall j int :: 0 <= j && j < len(byteSlice) ==> sw.buf[old(sw.off)+j] == old(byteSlice[j])
+//@   assigns sw.off, sw.accError, sw.buf[sw.off:sw.off+len(byteSlice)]
+
+//@ func (*FixedSliceWriter).WriteZeroBytes
+//@   requires swInv(sw) && n >= 0 && n <= 1<<48
+//@   ensures swInv(sw) && sw.buf == old(sw.buf)
+//@   ensures swStep(old(sw.off)+n <= len(sw.buf), sw.accError, old(sw.accError), sw.off, old(sw.off), n)
+//@   ensures old(sw.off)+n <= len(sw.buf) ==> forall j int :: 0 <= j && j < n ==> sw.buf[old(sw.off)+j] == 0
+//@   assigns sw.off, sw.accError, sw.buf[sw.off:sw.off+n]
+//@   loop 1 invariant 0 <= i && i <= n && sw.off == old(sw.off)+i && sw.buf == old(sw.buf) && sw.accError == old(sw.accError) && old(sw.off)+n <= len(sw.buf)
+//@   loop 1 invariant forall j int :: 0 <= j && j < i ==> sw.buf[old(sw.off)+j] == 0
+//@   loop 1 invariant forall k int :: (k < old(sw.off) || k >= old(sw.off)+n) ==> sw.buf[k] == old(sw.buf[k])
+
+//@ func (*FixedSliceWriter).WriteUnityMatrix
+//@   requires swInv(sw)
+//@   ensures swInv(sw) && sw.buf == old(sw.buf)
+//@   ensures swStep(old(sw.off)+36 <= len(sw.buf), sw.accError, old(sw.accError), sw.off, old(sw.off), 36)
+//@   assigns sw.off, sw.accError, sw.buf[sw.off:sw.off+36]
+
+// ---------------------------------------------------------------- bit writer / reader (C13)
+// Ghost state of the abstract io.Writer / io.Reader is maintained by the trusted models of Write / binary.Read:
+// wdata/wlen: raw bytes accepted; pay/plen: payload recovered by the standard's emulation-prevention decoder;
+// wz: trailing zero bytes (0..2); wlegal: no 00 00 0{0,1,2} emitted; wesc: last byte was an escape; wtight: no unnecessary escape.
+
+//@ spec wX(v uint, bits uint, n int) uint = (v << uint(n)) | (bits & mask(n))
+//@ spec outByte(x uint, total int, j int) uint8 = uint8(x >> uint(total - 8*(j+1)))
+//@ spec rdBytes(d [1099511627776]byte, p int, m int) uint = ite(m <= 0, uint(0), ite(m == 1, uint(d[p]), ite(m == 2, uint(d[p])<<8 | uint(d[p+1]), ite(m == 3, uint(d[p])<<16 | uint(d[p+1])<<8 | uint(d[p+2]), uint(d[p])<<24 | uint(d[p+1])<<16 | uint(d[p+2])<<8 | uint(d[p+3])))))
+//@ spec nrBytes(n0 int, k int) int = ite(k <= n0, 0, (k - n0 + 7) / 8)
+
+//@ pred wInv(w *Writer) = w != nil && w.wr != nil && len(w.out) == 1 && 0 <= w.n && w.n < 8
+
+//@ func NewWriter
+//@   requires w != nil
+//@   ensures wInv(result) && fresh(result) && fresh(result.out) && result.wr == w && result.err == nil && result.n == 0 && result.v == 0
+//@   assigns nothing
+
+//@ func (*Writer).Write
+//@   requires w != nil && (w.err == nil ==> wInv(w)) && 0 <= n && n <= 32
+//@   ensures old(w.err) != nil ==> w.err != nil
+//@   ensures w.wr == old(w.wr) && (w.err == nil ==> wInv(w) && w.n == (old(w.n)+n)%8)
+//@   ensures[C13] w.err == nil ==> ghost(w.wr).wlen == old(ghost(w.wr).wlen) + (old(w.n)+n)/8
+//@   ensures[C13] w.err == nil ==> forall j int :: 0 <= j && j < (old(w.n)+n)/8 ==> ghost(w.wr).wdata[old(ghost(w.wr).wlen)+j] == outByte(wX(old(w.v), bits, n), old(w.n)+n, j)
+//@   ensures[C13] w.err == nil ==> w.v & mask(w.n) == wX(old(w.v), bits, n) & mask(w.n)
+//@   ensures[C13] w.err == nil ==> forall i int :: 0 <= i && i < old(ghost(w.wr).wlen) ==> ghost(w.wr).wdata[i] == old(ghost(w.wr).wdata[i])
+//@   loop 1 invariant w != nil && w.err == nil && w.wr == old(w.wr) && w.wr != nil && len(w.out) == 1 && w.v == wX(old(w.v), bits, n)
+//@   loop 1 invariant 0 <= w.n && w.n <= old(w.n)+n && (old(w.n)+n-w.n)%8 == 0 && 0 <= old(w.n) && old(w.n) < 8
+//@   loop 1 invariant ghost(w.wr).wlen == old(ghost(w.wr).wlen) + (old(w.n)+n-w.n)/8
+//@   loop 1 invariant forall j int :: 0 <= j && j < (old(w.n)+n-w.n)/8 ==> ghost(w.wr).wdata[old(ghost(w.wr).wlen)+j] == outByte(wX(old(w.v), bits, n), old(w.n)+n, j)
+//@   loop 1 invariant forall i int :: 0 <= i && i < old(ghost(w.wr).wlen) ==> ghost(w.wr).wdata[i] == old(ghost(w.wr).wdata[i])
+//@   loop 1 decreases w.n
+
+//@ func (*Writer).Flush
+//@   requires w != nil && (w.err == nil ==> wInv(w))
+//@   ensures old(w.err) != nil ==> w.err != nil
+//@   ensures[C13] w.err == nil && old(w.n) != 0 ==> ghost(w.wr).wlen == old(ghost(w.wr).wlen)+1 && ghost(w.wr).wdata[old(ghost(w.wr).wlen)] == uint8((old(w.v) & mask(old(w.n))) << uint(8-old(w.n)))
+//@   ensures[C13] w.err == nil && old(w.n) == 0 ==> ghost(w.wr).wlen == old(ghost(w.wr).wlen)
+//@   ensures[C13] w.err == nil ==> forall i int :: 0 <= i && i < old(ghost(w.wr).wlen) ==> ghost(w.wr).wdata[i] == old(ghost(w.wr).wdata[i])
+
+//@ func (*Writer).AccError
+//@   requires w != nil
+//@   ensures result == w.err
+//@   assigns nothing
+
+//@ pred rInv(r *Reader) = r != nil && r.rd != nil && 0 <= r.n && r.n < 8 && r.value == r.value & mask(r.n) && r.pos+1 == ghost(r.rd).rpos && 0 <= ghost(r.rd).rpos && ghost(r.rd).rpos <= ghost(r.rd).rlen && ghost(r.rd).rlen <= 1<<48
+
+//@ func NewReader
+//@   requires rd != nil && ghost(rd).rpos == 0 && 0 <= ghost(rd).rlen && ghost(rd).rlen <= 1<<48
+//@   ensures rInv(result) && fresh(result) && result.rd == rd && result.err == nil && result.n == 0 && result.value == 0
+//@   assigns nothing
+
+//@ func (*Reader).Read
+//@   requires r != nil && (r.err == nil ==> rInv(r)) && 0 <= n && n <= 32
+//@   ensures old(r.err) != nil ==> r.err != nil && result == 0
+//@   ensures r.rd == old(r.rd) && ghost(r.rd).rlen == old(ghost(r.rd).rlen) && ghost(r.rd).rdata == old(ghost(r.rd).rdata)
+//@   ensures r.err == nil ==> rInv(r)
+//@   ensures r.err != nil ==> result == 0
+//@   ensures[C13] old(r.err) == nil ==> (r.err == nil) == (old(ghost(r.rd).rpos) + nrBytes(old(r.n), n) <= ghost(r.rd).rlen)
+//@   ensures[C13] r.err == nil ==> ghost(r.rd).rpos == old(ghost(r.rd).rpos) + nrBytes(old(r.n), n) && r.n == old(r.n) + 8*nrBytes(old(r.n), n) - n
+//@   ensures[C13] r.err == nil ==> result == ((old(r.value) << uint(8*nrBytes(old(r.n), n))) | rdBytes(ghost(r.rd).rdata, old(ghost(r.rd).rpos), nrBytes(old(r.n), n))) >> uint(r.n)
+//@   ensures[C13] r.err == nil ==> r.value == ((old(r.value) << uint(8*nrBytes(old(r.n), n))) | rdBytes(ghost(r.rd).rdata, old(ghost(r.rd).rpos), nrBytes(old(r.n), n))) & mask(r.n)
+//@   loop 1 invariant r != nil && r.err == nil && r.rd == old(r.rd) && r.rd != nil && 0 <= old(r.n) && old(r.n) < 8 && old(r.value) == old(r.value) & mask(old(r.n))
+//@   loop 1 invariant old(r.n) <= r.n && r.n < n+8 && (r.n-old(r.n))%8 == 0 && (r.n-old(r.n))/8 <= 4
+//@   loop 1 invariant ghost(r.rd).rlen == old(ghost(r.rd).rlen) && ghost(r.rd).rdata == old(ghost(r.rd).rdata) && ghost(r.rd).rlen <= 1<<48
+//@   loop 1 invariant ghost(r.rd).rpos == old(ghost(r.rd).rpos) + (r.n-old(r.n))/8 && r.pos+1 == ghost(r.rd).rpos && 0 <= old(ghost(r.rd).rpos) && ghost(r.rd).rpos <= ghost(r.rd).rlen
+//@   loop 1 invariant r.value == (old(r.value) << uint(r.n-old(r.n))) | rdBytes(ghost(r.rd).rdata, old(ghost(r.rd).rpos), (r.n-old(r.n))/8)
+//@   loop 1 decreases n - r.n
+
+//@ func (*Reader).ReadSigned
+//@   requires r != nil && (r.err == nil ==> rInv(r)) && 1 <= n && n <= 32
+//@   ensures old(r.err) != nil ==> r.err != nil && result == 0
+//@   ensures r.err == nil ==> rInv(r)
+
+//@ func (*Reader).ReadFlag
+//@   requires r != nil && (r.err == nil ==> rInv(r))
+//@   ensures old(r.err) != nil ==> r.err != nil && result == false
+//@   ensures r.err == nil ==> rInv(r)
+
+//@ func (*Reader).AccError
+//@   requires r != nil
+//@   ensures result == r.err
+//@   assigns nothing
+
+//@ func (*Reader).NrBytesRead
+//@   requires r != nil
+//@   ensures result == r.pos + 1
+//@   assigns nothing
+
+//@ func (*Reader).NrBitsReadInCurrentByte
+//@   requires r != nil
+//@   ensures result == 8 - r.n
+//@   assigns nothing
+
+//@ func (*Reader).NrBitsRead
+//@   requires r != nil && 0 <= r.n && r.n < 8 && r.pos >= -1 && r.pos < 1<<48
+//@   ensures[C13] result == 8*(r.pos+1) - r.n
+//@   assigns nothing
+
+// ---------------------------------------------------------------- EBSP writer (C13, C17)
+
+//@ pred ewInv(w *EBSPWriter) = w != nil && w.wr != nil && len(w.out) == 1 && 0 <= w.n && w.n < 8 && 0 <= w.nr0 && w.nr0 <= 2 && w.nr0 == ghost(w.wr).wz && !ghost(w.wr).wesc && 0 <= ghost(w.wr).plen && ghost(w.wr).plen <= 1<<56
+
+//@ func NewEBSPWriter
+//@   requires w != nil && ghost(w).wz == 0 && !ghost(w).wesc && 0 <= ghost(w).plen && ghost(w).plen <= 1<<56
+//@   ensures ewInv(result) && fresh(result) && fresh(result.out) && result.wr == w && result.err == nil && result.n == 0 && result.v == 0
+//@   assigns nothing
+
+//@ func (*EBSPWriter).Write
+//@   requires w != nil && (w.err == nil ==> ewInv(w) && 0 <= n && n <= 32)
+//@   ensures old(w.err) != nil ==> w.err != nil
+//@   ensures w.wr == old(w.wr) && (w.err == nil ==> ewInv(w) && w.n == (old(w.n)+n)%8)
+//@   ensures[C13] w.err == nil ==> ghost(w.wr).plen == old(ghost(w.wr).plen) + (old(w.n)+n)/8
+//@   ensures[C13] w.err == nil ==> forall j int :: 0 <= j && j < (old(w.n)+n)/8 ==> ghost(w.wr).pay[old(ghost(w.wr).plen)+j] == outByte(wX(old(w.v), bits, n), old(w.n)+n, j)
+//@   ensures[C13] w.err == nil ==> w.v & mask(w.n) == wX(old(w.v), bits, n) & mask(w.n)
+//@   ensures[C13] w.err == nil ==> forall i int :: 0 <= i && i < old(ghost(w.wr).plen) ==> ghost(w.wr).pay[i] == old(ghost(w.wr).pay[i])
+//@   ensures[C13] w.err == nil ==> ghost(w.wr).wlegal == old(ghost(w.wr).wlegal) && ghost(w.wr).wtight == old(ghost(w.wr).wtight)
+//@   loop 1 invariant w != nil && w.err == nil && w.wr == old(w.wr) && w.wr != nil && len(w.out) == 1 && w.v == wX(old(w.v), bits, n)
+//@   loop 1 invariant 0 <= w.n && w.n <= old(w.n)+n && (old(w.n)+n-w.n)%8 == 0 && 0 <= old(w.n) && old(w.n) < 8
+//@   loop 1 invariant 0 <= w.nr0 && w.nr0 <= 2 && w.nr0 == ghost(w.wr).wz && !ghost(w.wr).wesc
+//@   loop 1 invariant ghost(w.wr).wlegal == old(ghost(w.wr).wlegal) && ghost(w.wr).wtight == old(ghost(w.wr).wtight)
+//@   loop 1 invariant ghost(w.wr).plen == old(ghost(w.wr).plen) + (old(w.n)+n-w.n)/8 && 0 <= old(ghost(w.wr).plen) && ghost(w.wr).plen <= 1<<56
+//@   loop 1 invariant forall j int :: 0 <= j && j < (old(w.n)+n-w.n)/8 ==> ghost(w.wr).pay[old(ghost(w.wr).plen)+j] == outByte(wX(old(w.v), bits, n), old(w.n)+n, j)
+//@   loop 1 invariant forall i int :: 0 <= i && i < old(ghost(w.wr).plen) ==> ghost(w.wr).pay[i] == old(ghost(w.wr).pay[i])
+//@   loop 1 decreases w.n
+
+//@ func (*EBSPWriter).AccError
+//@   requires w != nil
+//@   ensures result == w.err
+//@   assigns nothing
+
+//@ func (*EBSPWriter).NrBitsInBuffer
+//@   requires w != nil
+//@   ensures result == uint(w.n)
+//@   assigns nothing
+
+//@ func (*EBSPWriter).BitsInBuffer
+//@   requires w != nil
+//@   ensures bits == w.v && n == uint(w.n)
+//@   assigns nothing
+
+//@ func (*EBSPWriter).StuffByteWithZeros
+//@   requires w != nil && (w.err == nil ==> ewInv(w))
+//@   ensures old(w.err) != nil ==> w.err != nil
+//@   ensures w.wr == old(w.wr) && (w.err == nil ==> ewInv(w) && w.n == 0)
+//@   ensures[C13] w.err == nil ==> ghost(w.wr).plen == old(ghost(w.wr).plen) + ite(old(w.n) > 0, 1, 0)
+//@   ensures[C13] w.err == nil && old(w.n) > 0 ==> ghost(w.wr).pay[old(ghost(w.wr).plen)] == uint8((old(w.v) & mask(old(w.n))) << uint(8-old(w.n)))
+//@   ensures[C13] w.err == nil ==> forall i int :: 0 <= i && i < old(ghost(w.wr).plen) ==> ghost(w.wr).pay[i] == old(ghost(w.wr).pay[i])
+//@   ensures[C13] w.err == nil ==> ghost(w.wr).wlegal == old(ghost(w.wr).wlegal) && ghost(w.wr).wtight == old(ghost(w.wr).wtight)
+
+//@ func (*EBSPWriter).WriteRbspTrailingBits
+//@   requires w != nil && (w.err == nil ==> ewInv(w))
+//@   ensures old(w.err) != nil ==> w.err != nil
+//@   ensures w.wr == old(w.wr) && (w.err == nil ==> ewInv(w) && w.n == 0)
+//@   ensures[C13] w.err == nil ==> ghost(w.wr).plen == old(ghost(w.wr).plen) + 1
+//@   ensures[C13] w.err == nil ==> ghost(w.wr).pay[old(ghost(w.wr).plen)] == uint8((((old(w.v) & mask(old(w.n))) << 1) | 1) << uint(7-old(w.n)))
+//@   ensures[C13] w.err == nil ==> forall i int :: 0 <= i && i < old(ghost(w.wr).plen) ==> ghost(w.wr).pay[i] == old(ghost(w.wr).pay[i])
+//@   ensures[C13] w.err == nil ==> ghost(w.wr).wlegal == old(ghost(w.wr).wlegal) && ghost(w.wr).wtight == old(ghost(w.wr).wtight)
+
+// ue(v): prefixLen zero bits, a one bit, then v+1-2^prefixLen in prefixLen bits (ITU-T H.264 9.1).
+//@ spec ueLen(v uint) uint = ite(v+1 < 1<<1, uint(0), ite(v+1 < 1<<2, uint(1), ite(v+1 < 1<<3, uint(2), ite(v+1 < 1<<4, uint(3), ite(v+1 < 1<<5, uint(4), ite(v+1 < 1<<6, uint(5), ite(v+1 < 1<<7, uint(6), ite(v+1 < 1<<8, uint(7), ite(v+1 < 1<<9, uint(8), ite(v+1 < 1<<10, uint(9), ite(v+1 < 1<<11, uint(10), ite(v+1 < 1<<12, uint(11), ite(v+1 < 1<<13, uint(12), ite(v+1 < 1<<14, uint(13), ite(v+1 < 1<<15, uint(14), ite(v+1 < 1<<16, uint(15), ueLenHi(v)))))))))))))))))
+//@ spec ueLenHi(v uint) uint = ite(v+1 < 1<<17, uint(16), ite(v+1 < 1<<18, uint(17), ite(v+1 < 1<<19, uint(18), ite(v+1 < 1<<20, uint(19), ite(v+1 < 1<<21, uint(20), ite(v+1 < 1<<22, uint(21), ite(v+1 < 1<<23, uint(22), ite(v+1 < 1<<24, uint(23), ite(v+1 < 1<<25, uint(24), ite(v+1 < 1<<26, uint(25), ite(v+1 < 1<<27, uint(26), ite(v+1 < 1<<28, uint(27), ite(v+1 < 1<<29, uint(28), ite(v+1 < 1<<30, uint(29), ite(v+1 < 1<<31, uint(30), uint(31))))))))))))))))
+
+//@ func (*EBSPWriter).WriteExpGolomb
+//@   requires w != nil && (w.err == nil ==> ewInv(w)) && nr < 1<<32 - 1
+//@   ensures old(w.err) != nil ==> w.err != nil
+//@   ensures w.wr == old(w.wr) && (w.err == nil ==> ewInv(w))
+//@   ensures[C13] w.err == nil ==> 8*ghost(w.wr).plen + w.n == 8*old(ghost(w.wr).plen) + old(w.n) + 2*int(ueLen(nr)) + 1
+//@   ensures[C13] w.err == nil ==> ghost(w.wr).wlegal == old(ghost(w.wr).wlegal) && ghost(w.wr).wtight == old(ghost(w.wr).wtight)
+//@   loop 1 invariant prefixLen <= 31 && offset == (uint(1) << prefixLen) - 1 && max == (uint(1) << (prefixLen+1)) - 2 && (prefixLen > 0 ==> nr > (uint(1) << prefixLen) - 2)
+//@   loop 1 decreases 32 - prefixLen
+
+//@ func (*EBSPWriter).WriteSEIValue
+//@   requires w != nil && (w.err == nil ==> ewInv(w) && w.n == 0)
+//@   ensures old(w.err) != nil ==> w.err != nil
+//@   ensures w.wr == old(w.wr) && (w.err == nil ==> ewInv(w) && w.n == 0)
+//@   ensures[C13] w.err == nil ==> ghost(w.wr).plen > old(ghost(w.wr).plen) && ghost(w.wr).pay[ghost(w.wr).plen-1] < 255
+//@   ensures[C13] w.err == nil ==> ghost(w.wr).wlegal == old(ghost(w.wr).wlegal) && ghost(w.wr).wtight == old(ghost(w.wr).wtight)
+//@   loop 1 invariant w != nil && w.wr == old(w.wr) && (w.err == nil ==> ewInv(w) && w.n == 0) && (old(w.err) != nil ==> w.err != nil)
+//@   loop 1 invariant val <= val0
+//@   loop 1 invariant w.err == nil ==> ghost(w.wr).plen >= old(ghost(w.wr).plen) && val0 - val == 255*uint(ghost(w.wr).plen - old(ghost(w.wr).plen)) && (forall j int :: old(ghost(w.wr).plen) <= j && j < ghost(w.wr).plen ==> ghost(w.wr).pay[j] == 255) && ghost(w.wr).wlegal == old(ghost(w.wr).wlegal) && ghost(w.wr).wtight == old(ghost(w.wr).wtight)
+//@   loop 1 decreases val
+
+// ---------------------------------------------------------------- EBSP reader (C13, C15, C16, C17)
+// rpay/rplen/rz: payload, its length and the zero run that the standard's emulation-prevention decoder derives from the
+// bytes consumed so far (maintained by the trusted model of binary.Read, independently of the code below).
+
+//@ pred erInv(r *EBSPReader) = r != nil && r.rd != nil && 0 <= r.n && r.n < 8 && r.v == r.v & mask(r.n) && r.pos+1 == ghost(r.rd).rpos && 0 <= ghost(r.rd).rpos && ghost(r.rd).rpos <= ghost(r.rd).rlen && ghost(r.rd).rlen <= 1<<48 && r.zeroCount == ghost(r.rd).rz && 0 <= ghost(r.rd).rz && ghost(r.rd).rz <= ghost(r.rd).rpos && 0 <= ghost(r.rd).rplen && ghost(r.rd).rplen <= ghost(r.rd).rpos && ebspSync(r.rd)
+
+//@ func NewEBSPReader
+//@   requires rd != nil && ghost(rd).rpos == 0 && 0 <= ghost(rd).rlen && ghost(rd).rlen <= 1<<48 && ghost(rd).rz == 0 && ghost(rd).rplen == 0 && ebspSync(rd)
+//@   ensures erInv(result) && fresh(result) && result.rd == rd && result.err == nil && result.n == 0 && result.v == 0
+//@   assigns nothing
+
+//@ func (*EBSPReader).AccError
+//@   requires r != nil
+//@   ensures result == r.err
+//@   assigns nothing
+
+//@ func (*EBSPReader).NrBytesRead
+//@   requires r != nil
+//@   ensures result == r.pos + 1
+//@   assigns nothing
+
+//@ func (*EBSPReader).NrBitsReadInCurrentByte
+//@   requires r != nil
+//@   ensures result == 8 - r.n
+//@   assigns nothing
+
+//@ func (*EBSPReader).NrBitsRead
+//@   requires r != nil && 0 <= r.n && r.n < 8 && r.pos >= -1 && r.pos < 1<<48
+//@   ensures[C13] result == 8*(r.pos+1) - r.n
+//@   assigns nothing
+
+//@ func (*EBSPReader).Read
+//@   requires r != nil && (r.err == nil ==> erInv(r)) && 0 <= n && n <= 1<<52
+//@   ensures old(r.err) != nil ==> r.err != nil && result == 0
+//@   ensures r.rd == old(r.rd) && ghost(r.rd).rlen == old(ghost(r.rd).rlen) && ghost(r.rd).rdata == old(ghost(r.rd).rdata)
+//@   ensures r.err == nil ==> erInv(r)
+//@   ensures r.err != nil ==> result == 0
+//@   ensures old(r.err) == nil ==> ghost(r.rd).rpos >= old(ghost(r.rd).rpos) && ghost(r.rd).rpos <= ghost(r.rd).rlen
+//@   ensures r.err == nil ==> 8*(ghost(r.rd).rpos - old(ghost(r.rd).rpos)) >= r.n + n - old(r.n)
+//@   ensures n <= 1 ==> result <= 1
+//@   ensures[C13] r.err == nil && n <= 32 ==> ghost(r.rd).rplen == old(ghost(r.rd).rplen) + nrBytes(old(r.n), n) && r.n == old(r.n) + 8*nrBytes(old(r.n), n) - n
+//@   ensures[C13] r.err == nil && n <= 32 ==> result == ((old(r.v) << uint(8*nrBytes(old(r.n), n))) | rdBytes(ghost(r.rd).rpay, old(ghost(r.rd).rplen), nrBytes(old(r.n), n))) >> uint(r.n)
+//@   ensures[C13] r.err == nil && n <= 32 ==> r.v == ((old(r.v) << uint(8*nrBytes(old(r.n), n))) | rdBytes(ghost(r.rd).rpay, old(ghost(r.rd).rplen), nrBytes(old(r.n), n))) & mask(r.n)
+//@   ensures[C13] old(r.err) == nil ==> forall i int :: 0 <= i && i < old(ghost(r.rd).rplen) ==> ghost(r.rd).rpay[i] == old(ghost(r.rd).rpay[i])
+//@   loop 1 invariant r != nil && r.err == nil && r.rd == old(r.rd) && r.rd != nil && 0 <= old(r.n) && old(r.n) < 8 && old(r.v) == old(r.v) & mask(old(r.n))
+//@   loop 1 invariant old(r.n) <= r.n && r.n < n+8 && (r.n-old(r.n))%8 == 0
+//@   loop 1 invariant ghost(r.rd).rlen == old(ghost(r.rd).rlen) && ghost(r.rd).rdata == old(ghost(r.rd).rdata) && ghost(r.rd).rlen <= 1<<48
+//@   loop 1 invariant r.pos+1 == ghost(r.rd).rpos && 8*(ghost(r.rd).rpos - old(ghost(r.rd).rpos)) >= r.n - old(r.n) && old(ghost(r.rd).rpos) <= ghost(r.rd).rpos && 0 <= old(ghost(r.rd).rpos) && ghost(r.rd).rpos <= ghost(r.rd).rlen
+//@   loop 1 invariant r.zeroCount == ghost(r.rd).rz && 0 <= ghost(r.rd).rz && ghost(r.rd).rz <= ghost(r.rd).rpos && ebspSync(r.rd)
+//@   loop 1 invariant 0 <= old(ghost(r.rd).rplen) && old(ghost(r.rd).rplen) <= ghost(r.rd).rplen && ghost(r.rd).rplen <= ghost(r.rd).rpos
+//@   loop 1 invariant forall i int :: 0 <= i && i < old(ghost(r.rd).rplen) ==> ghost(r.rd).rpay[i] == old(ghost(r.rd).rpay[i])
+//@   loop 1 invariant n <= 32 ==> (r.n-old(r.n))/8 <= 4 && ghost(r.rd).rplen == old(ghost(r.rd).rplen) + (r.n-old(r.n))/8
+//@   loop 1 invariant n <= 32 ==> r.v == (old(r.v) << uint(r.n-old(r.n))) | rdBytes(ghost(r.rd).rpay, old(ghost(r.rd).rplen), (r.n-old(r.n))/8)
+//@   loop 1 decreases n - r.n
+
+//@ func (*EBSPReader).ReadFlag
+//@   requires r != nil && (r.err == nil ==> erInv(r))
+//@   ensures old(r.err) != nil ==> r.err != nil && result == false
+//@   ensures r.rd == old(r.rd) && (r.err == nil ==> erInv(r))
+//@   ensures r.err == nil ==> 8*(ghost(r.rd).rpos - old(ghost(r.rd).rpos)) >= r.n + 1 - old(r.n)
+//@   ensures old(r.err) == nil ==> ghost(r.rd).rpos >= old(ghost(r.rd).rpos) && ghost(r.rd).rpos <= ghost(r.rd).rlen && ghost(r.rd).rlen == old(ghost(r.rd).rlen)
+
+//@ func (*EBSPReader).ReadBytes
+//@   requires r != nil && (r.err == nil ==> erInv(r)) && 0 <= n && n <= 1<<48
+//@   ensures old(r.err) != nil ==> r.err != nil
+//@   ensures r.rd == old(r.rd) && (r.err == nil ==> erInv(r) && len(result) == n)
+//@   ensures r.err != nil ==> len(result) == 0
+//@   loop 1 invariant r != nil && r.rd == old(r.rd) && (r.err == nil ==> erInv(r)) && 0 <= i && i <= n && len(payload) == n
+//@   loop 1 decreases n - i
+
+//@ func (*EBSPReader).ReadExpGolomb
+//@   requires r != nil && (r.err == nil ==> erInv(r))
+//@   ensures old(r.err) != nil ==> r.err != nil && result == 0
+//@   ensures r.rd == old(r.rd) && (r.err == nil ==> erInv(r))
+//@   ensures r.err != nil ==> result == 0
+//@   ensures old(r.err) == nil ==> ghost(r.rd).rpos >= old(ghost(r.rd).rpos) && ghost(r.rd).rpos <= ghost(r.rd).rlen && ghost(r.rd).rlen == old(ghost(r.rd).rlen)
+//@   loop 1 invariant r != nil && r.rd == old(r.rd) && r.err == nil && erInv(r) && ghost(r.rd).rlen == old(ghost(r.rd).rlen) && ghost(r.rd).rpos >= old(ghost(r.rd).rpos)
+//@   loop 1 invariant 0 <= leadingZeroBits && leadingZeroBits <= 8*(ghost(r.rd).rpos - old(ghost(r.rd).rpos)) + old(r.n) - r.n && old(erInv(r))
+//@   loop 1 decreases 8*(ghost(r.rd).rlen - ghost(r.rd).rpos) + r.n
+
+//@ func (*EBSPReader).ReadSignedGolomb
+//@   requires r != nil && (r.err == nil ==> erInv(r))
+//@   ensures old(r.err) != nil ==> r.err != nil && result == 0
+//@   ensures r.rd == old(r.rd) && (r.err == nil ==> erInv(r))
+//@   ensures old(r.err) == nil ==> ghost(r.rd).rpos >= old(ghost(r.rd).rpos) && ghost(r.rd).rpos <= ghost(r.rd).rlen && ghost(r.rd).rlen == old(ghost(r.rd).rlen)
+
+//@ func (*EBSPReader).SetError
+//@   requires r != nil
+//@   ensures r.rd == old(r.rd) && (old(r.err) != nil ==> r.err == old(r.err)) && (old(r.err) == nil ==> r.err == err)
+//@   assigns r.err
+
+//@ func (*EBSPReader).IsSeeker
+//@   requires r != nil
+//@   ensures result == implements(r.rd, "io.ReadSeeker")
+//@   assigns nothing
+
+//@ func (*EBSPReader).reset
+//@   requires r != nil && implements(r.rd, "io.ReadSeeker")
+//@   ensures r.rd == old(r.rd) && r.err == old(r.err) && ghost(r.rd).rlen == old(ghost(r.rd).rlen) && ghost(r.rd).rdata == old(ghost(r.rd).rdata)
+//@   ensures result == nil ==> r.n == prevState.n && r.v == prevState.v && r.pos == prevState.pos && r.zeroCount == prevState.zeroCount
+//@   ensures result == nil && 0 <= prevState.pos+1 && prevState.pos+1 <= ghost(r.rd).rlen ==> ghost(r.rd).rpos == prevState.pos+1 && ebspSync(r.rd)
+
+//@ func (*EBSPReader).MoreRbspData
+//@   requires r != nil && (r.err == nil ==> erInv(r))
+//@   ensures r.rd == old(r.rd)
+//@   ensures old(r.err) == nil && r.err == nil && result1 == nil ==> erInv(r) && ghost(r.rd).rpos == old(ghost(r.rd).rpos) && r.n == old(r.n) && r.v == old(r.v)
+//@   loop 1 invariant r != nil && r.rd == old(r.rd) && r.err == nil && erInv(r) && ghost(r.rd).rlen == old(ghost(r.rd).rlen) && ghost(r.rd).rdata == old(ghost(r.rd).rdata) && old(erInv(r)) && stateCopy.pos == old(r.pos) && stateCopy.n == old(r.n) && stateCopy.v == old(r.v) && stateCopy.zeroCount == old(r.zeroCount)
+//@   loop 1 decreases 8*(ghost(r.rd).rlen - ghost(r.rd).rpos) + r.n
+
+//@ func (*EBSPReader).ReadRbspTrailingBits
+//@   requires r != nil && (r.err == nil ==> erInv(r))
+//@   ensures r.rd == old(r.rd)
+//@   loop 1 invariant r != nil && r.rd == old(r.rd) && r.err == nil && erInv(r) && ghost(r.rd).rlen == old(ghost(r.rd).rlen)
+//@   loop 1 decreases 8*(ghost(r.rd).rlen - ghost(r.rd).rpos) + r.n
+
+//@ func (*FixedSliceWriter).WriteBits
+//@   requires sw != nil && (sw.accError == nil ==> swInv(sw) && 0 <= sw.n && sw.n < 8 && 0 <= n && n <= 32)
+//@   ensures old(sw.accError) != nil ==> sw.accError != nil
+//@   ensures sw.buf == old(sw.buf) && (sw.accError == nil ==> swInv(sw) && sw.n == (old(sw.n)+n)%8 && sw.off == old(sw.off) + (old(sw.n)+n)/8)
+//@   ensures[C17] sw.accError == nil ==> forall j int :: 0 <= j && j < (old(sw.n)+n)/8 ==> sw.buf[old(sw.off)+j] == outByte(wX(old(sw.v), bits, n), old(sw.n)+n, j)
+//@   ensures[C17] sw.accError == nil ==> sw.v & mask(sw.n) == wX(old(sw.v), bits, n) & mask(sw.n)
+//@   ensures[C17] forall k int :: (k < old(sw.off) || k >= old(sw.off) + (old(sw.n)+n)/8) ==> sw.buf[k] == old(sw.buf[k])
+//@   loop 1 invariant sw != nil && sw.buf == old(sw.buf) && swInv(sw) && old(sw.accError) == nil && sw.v == wX(old(sw.v), bits, n) && 0 <= old(sw.n) && old(sw.n) < 8 && 0 <= n && n <= 32
+//@   loop 1 invariant 0 <= sw.n && sw.n <= old(sw.n)+n && (old(sw.n)+n-sw.n)%8 == 0
+//@   loop 1 invariant sw.accError == nil ==> sw.off == old(sw.off) + (old(sw.n)+n-sw.n)/8
+//@   loop 1 invariant[C17] sw.accError == nil ==> forall j int :: 0 <= j && j < (old(sw.n)+n-sw.n)/8 ==> sw.buf[old(sw.off)+j] == outByte(wX(old(sw.v), bits, n), old(sw.n)+n, j)
+//@   loop 1 invariant[C17] forall k int :: (k < old(sw.off) || k >= old(sw.off) + (old(sw.n)+n)/8) ==> sw.buf[k] == old(sw.buf[k])
+//@   loop 1 invariant sw.off >= old(sw.off) && sw.off <= old(sw.off) + (old(sw.n)+n-sw.n)/8
+//@   loop 1 decreases sw.n
+
+//@ func (*FixedSliceWriter).WriteFlag
+//@   requires sw != nil && (sw.accError == nil ==> swInv(sw) && 0 <= sw.n && sw.n < 8)
+//@   ensures old(sw.accError) != nil ==> sw.accError != nil
+//@   ensures sw.buf == old(sw.buf) && (sw.accError == nil ==> swInv(sw) && sw.n == (old(sw.n)+1)%8 && sw.off == old(sw.off) + (old(sw.n)+1)/8)
+
+//@ func (*FixedSliceWriter).FlushBits
+//@   requires sw != nil && (sw.accError == nil ==> swInv(sw) && 0 <= sw.n && sw.n < 8)
+//@   ensures old(sw.accError) != nil ==> sw.accError != nil
+//@   ensures sw.buf == old(sw.buf) && (sw.accError == nil ==> swInv(sw) && sw.off == old(sw.off) + ite(old(sw.n) != 0, 1, 0))
+//@   ensures[C17] sw.accError == nil && old(sw.n) != 0 ==> sw.buf[old(sw.off)] == uint8((old(sw.v) & mask(old(sw.n))) << uint(8-old(sw.n)))
+
+//@ func CeilLog2
+//@   ensures 0 <= result && result <= 32
+//@   assigns nothing
+
+// ---------------------------------------------------------------- ByteWriter
+
+//@ func NewByteWriter
+//@   ensures fresh(result) && result.w == w && result.err == nil
+//@   assigns nothing
+
+//@ func (*ByteWriter).AccError
+//@   requires a != nil
+//@   ensures result == a.err
+//@   assigns nothing
+
+//@ func (*ByteWriter).WriteUint8
+//@   requires a != nil && a.w != nil
+//@   ensures a.w == old(a.w) && (old(a.err) != nil ==> a.err == old(a.err))
+//@ func (*ByteWriter).WriteUint16
+//@   requires a != nil && a.w != nil
+//@   ensures a.w == old(a.w) && (old(a.err) != nil ==> a.err == old(a.err))
+//@ func (*ByteWriter).WriteUint32
+//@   requires a != nil && a.w != nil
+//@   ensures a.w == old(a.w) && (old(a.err) != nil ==> a.err == old(a.err))
+//@ func (*ByteWriter).WriteUint48
+//@   requires a != nil && a.w != nil
+//@   ensures a.w == old(a.w) && (old(a.err) != nil ==> a.err == old(a.err))
+//@ func (*ByteWriter).WriteUint64
+//@   requires a != nil && a.w != nil
+//@   ensures a.w == old(a.w) && (old(a.err) != nil ==> a.err == old(a.err))
+//@ func (*ByteWriter).WriteSlice
+//@   requires a != nil && a.w != nil
+//@   ensures a.w == old(a.w) && (old(a.err) != nil ==> a.err == old(a.err))
